@@ -382,7 +382,8 @@ func TestShardLookbackRapid(t *testing.T) {
 			_ = r.ShuffleShardWithLookback(id, size, time.Duration(lb)*time.Second, time.Unix(at, 0))
 			vx.Class("lookback_queries_preceded_by_other_windows", 1)
 		}
-		got := members(r.ShuffleShardWithLookback(id, size, time.Duration(lookback)*time.Second, time.Unix(nowSec, 0)))
+		nowNs := rapid.SampledFrom([]int64{0, 0, 1, 400_000_000, 999_999_999}).Draw(rt, "queryNanos")
+		got := members(r.ShuffleShardWithLookback(id, size, time.Duration(lookback)*time.Second, time.Unix(nowSec, nowNs)))
 		gotSet := map[string]bool{}
 		for _, g := range got {
 			gotSet[g] = true
@@ -673,7 +674,9 @@ func TestPartitionLookbackRapid(t *testing.T) {
 		if err != nil {
 			rt.Fatalf("NewPartitionRing: %v", err)
 		}
-		sub, err := r.ShuffleShardWithLookback(id, size, time.Duration(lookback)*time.Second, time.Unix(nowSec, 0))
+		// the query instant is rarely on a whole second; timestamps in the ring are
+		nowNs := rapid.SampledFrom([]int64{0, 0, 1, 400_000_000, 999_999_999}).Draw(rt, "queryNanos")
+		sub, err := r.ShuffleShardWithLookback(id, size, time.Duration(lookback)*time.Second, time.Unix(nowSec, nowNs))
 		if err != nil {
 			rt.Fatalf("ShuffleShardWithLookback: %v", err)
 		}
@@ -715,6 +718,67 @@ func TestPartitionLookbackRapid(t *testing.T) {
 		}
 		if nt {
 			vx.NonTrivial(vx.FP("plb", fmt.Sprint(d), fmt.Sprint(evs), id, size, lookback, nowSec))
+		}
+	})
+}
+
+// TestShardTokenlessRapid: rings in which some members are registered without tokens (a lifecycler's
+// first registration during a scale-up). Which of them a shard may contain is left open; asserted is
+// the size clause from above: never more members of a zone than the requested number per zone, all
+// the token-owning eligible members of a zone when the zone has no more than that. (The "changes by at
+// most one" clause is not asserted here: the statement's rings have 1..128 tokens per instance, and
+// with token-less members the whole-zone shortcut makes a shard jump - existing behaviour.)
+func TestShardTokenlessRapid(t *testing.T) {
+	rapid.Check(t, func(rt *rapid.T) {
+		zones := []string{"a", "b", "c"}[:rapid.IntRange(1, 3).Draw(rt, "zones")]
+		now := time.Now()
+		used := map[uint32]bool{}
+		ins := genRing(rt, zones, 12, now.Unix(), used)
+		for i := range ins {
+			ins[i].RO, ins[i].ROTs = false, 0
+		}
+		nLess := rapid.IntRange(1, 3).Draw(rt, "tokenless")
+		for k := 0; k < nLess; k++ {
+			ins = append(ins, inst{ID: fmt.Sprintf("joining-%d", k), Zone: rapid.SampledFrom(zones).Draw(rt, "tokenlessZone"), Registered: now.Unix() - 10})
+		}
+		owners := map[string]int{}
+		for _, in := range ins {
+			if len(in.Tokens) > 0 {
+				owners[in.Zone]++
+			}
+		}
+		if len(owners) != len(zones) {
+			return // a zone without any token owner: outside the quantifier (every zone holds tokens)
+		}
+		r := fakekv.NewRing(cfg(true, rapid.Bool().Draw(rt, "cache")), desc(ins, now, 0))
+		defer r.Stop()
+		id := tenantGen.Draw(rt, "tenant")
+		zoneOf := map[string]string{}
+		hasTok := map[string]bool{}
+		for _, in := range ins {
+			zoneOf[in.ID] = in.Zone
+			hasTok[in.ID] = len(in.Tokens) > 0
+		}
+		for size := 1; size <= len(ins)+1; size++ {
+			per := (size + len(zones) - 1) / len(zones)
+			m := idsOfSubring(r.ShuffleShard(id, size), ins)
+			vx.Eval(1)
+			vx.NonTrivial(vx.FP("tokenless", fmt.Sprint(ins), id, size))
+			perZone, perZoneTok := map[string]int{}, map[string]int{}
+			for _, x := range m {
+				perZone[zoneOf[x]]++
+				if hasTok[x] {
+					perZoneTok[zoneOf[x]]++
+				}
+			}
+			for _, z := range zones {
+				if perZone[z] > per {
+					rt.Fatalf("size=%d (%d per zone) id=%q: the shard %v holds %d members of zone %s\nins=%v", size, per, id, m, perZone[z], z, ins)
+				}
+				if want := min(per, owners[z]); perZoneTok[z] < want && perZone[z] < per {
+					rt.Fatalf("size=%d (%d per zone) id=%q: the shard %v holds %d token owners of zone %s, which has %d\nins=%v", size, per, id, m, perZoneTok[z], z, owners[z], ins)
+				}
+			}
 		}
 	})
 }
